@@ -47,9 +47,7 @@ package httpserver
 //     a decoy X-Real-IP; XFF client + decoy X-Real-IP. Ops whose headers do
 //     not name op.IP under that rule are skipped. Not generated: private-only
 //     XFF without X-Real-IP (the rule yields no address), unparseable hops.
-//   - IPv4-mapped IPv6 addresses are not generated (family is a matter of
-//     reading). Invalid list entries are not generated (validation rejects
-//     them).
+//   - Invalid list entries are not generated (validation rejects them).
 //   - cached 404/405 answered to a client the server filter denies is accepted
 //     (statement: any 4xx unless the route exists) — that is C12's business.
 //   - with header-conditioned paths (a minority of scenarios) a not-denied
@@ -126,7 +124,18 @@ package httpserver
 //     (const c05MultiLineXFFPrivateFirst, on): the client is the first public
 //     hop of the joined list; class C05.client-in-later-x-forwarded-for-line-ignored
 //     (was a genuine defect, repaired by c43d264).
-//   - still not generated: IPv4-mapped IPv6, several X-Real-IP lines, paths
+//   - spellings of one address: header-borne clients are also written
+//     IPv4-mapped (::ffff:a.b.c.d, ::ffff:hhhh:hhhh, 0:0:0:0:0:ffff:hhhh:hhhh)
+//     and, IPv6, upper case / four-digit groups / one zero group as "::";
+//     IPv6 list entries likewise. The decision is made on the parsed address
+//     (the earlier "IPv4-mapped is a matter of reading" leniency is gone: the
+//     statement judges the address, net.ParseIP and IPNet.Contains treat both
+//     spellings alike). List ENTRIES in IPv4-mapped spelling (const
+//     c05MappedListEntries, on) used to match nothing
+//     (C05.ipv4-mapped-list-entry-ignored) or to make ipfilter.New panic
+//     (C05.valid-list-entry-panics-on-load): genuine defect, repaired by 7d1a200.
+//   - mux.reload panicking on a validated spec is C05.valid-list-entry-panics-on-load.
+//   - still not generated: several X-Real-IP lines, paths
 //     with path+pathPrefix+pathRegexp at once, matchAllHeader, globalFilter,
 //     negative (stream) clientMaxBodySize, https/http3 options.
 //
@@ -150,6 +159,7 @@ import (
 	"net/http/httptest"
 	"os"
 	"regexp"
+	"runtime/debug"
 	"sort"
 	"strings"
 	"testing"
@@ -372,13 +382,112 @@ func c05Expand6(s string) string {
 	return strings.Join(parts, ":")
 }
 
+// c05MappedListEntries switches on list entries written in IPv4-mapped form
+// (::ffff:a.b.c.d, ::ffff:a.b.c.d/(96+l)). The statement judges the address,
+// not its spelling; net.ParseIP / net.IPNet.Contains treat both spellings
+// alike. Such entries used to match nothing at all (class
+// C05.ipv4-mapped-list-entry-ignored) or to make ipfilter.New panic (class
+// C05.valid-list-entry-panics-on-load): genuine defect, repaired in /repo by
+// 7d1a200. Permanently on.
+const c05MappedListEntries = true
+
+// c05Spell writes the address ip (canonical text) in another spelling of the
+// SAME address. IPv6: "exp" upper case, all groups, no leading zeros; "lz"
+// lower case, all groups, four digits each; "upper" canonical but upper case;
+// "part" all groups but one zero group replaced by "::". IPv4: "map4"
+// ::ffff:a.b.c.d, "map4hex" ::ffff:hhhh:hhhh, "map4long" 0:0:0:0:0:ffff:hhhh:hhhh.
+// An unknown form or a form of the other family leaves the text as it is.
+func c05Spell(s, form string) string {
+	ip := net.ParseIP(s)
+	if ip == nil {
+		return s
+	}
+	if v4 := ip.To4(); v4 != nil {
+		if strings.Contains(s, ":") {
+			return s
+		}
+		switch form {
+		case "map4":
+			return "::ffff:" + s
+		case "map4hex":
+			return fmt.Sprintf("::ffff:%02x%02x:%02x%02x", v4[0], v4[1], v4[2], v4[3])
+		case "map4long":
+			return fmt.Sprintf("0:0:0:0:0:ffff:%x:%x", uint16(v4[0])<<8|uint16(v4[1]), uint16(v4[2])<<8|uint16(v4[3]))
+		}
+		return s
+	}
+	ip = ip.To16()
+	g := make([]uint16, 8)
+	for i := range g {
+		g[i] = uint16(ip[2*i])<<8 | uint16(ip[2*i+1])
+	}
+	switch form {
+	case "exp":
+		return c05Expand6(s)
+	case "lz":
+		parts := make([]string, 8)
+		for i, x := range g {
+			parts[i] = fmt.Sprintf("%04x", x)
+		}
+		return strings.Join(parts, ":")
+	case "upper":
+		return strings.ToUpper(s)
+	case "part":
+		// the LAST zero group becomes "::", the others are written out
+		z := -1
+		for i, x := range g {
+			if x == 0 {
+				z = i
+			}
+		}
+		if z < 0 {
+			return s
+		}
+		var l, r []string
+		for i, x := range g {
+			switch {
+			case i < z:
+				l = append(l, fmt.Sprintf("%x", x))
+			case i > z:
+				r = append(r, fmt.Sprintf("%x", x))
+			}
+		}
+		return strings.Join(l, ":") + "::" + strings.Join(r, ":")
+	}
+	return s
+}
+
+// c05SpellEntry respells the address part of a list entry.
+func c05SpellEntry(rng *sim.Rand, e string) string {
+	base, suffix := e, ""
+	if i := strings.Index(e, "/"); i >= 0 {
+		base, suffix = e[:i], e[i:]
+	}
+	if strings.Contains(base, ":") {
+		if rng.Bool(0.25) {
+			return c05Spell(base, rng.PickStr("exp", "lz", "upper", "part")) + suffix
+		}
+		return e
+	}
+	if c05MappedListEntries && rng.Bool(0.12) {
+		l := 32
+		if suffix != "" {
+			fmt.Sscanf(suffix[1:], "%d", &l)
+			return fmt.Sprintf("%s/%d", c05Spell(base, "map4"), 96+l)
+		}
+		return c05Spell(base, rng.PickStr("map4", "map4hex"))
+	}
+	return e
+}
+
 func c05GenEntry(rng *sim.Rand, pool []string) string {
+	return c05SpellEntry(rng, c05GenEntry0(rng, pool))
+}
+
+func c05GenEntry0(rng *sim.Rand, pool []string) string {
 	a := pool[rng.Intn(len(pool))]
 	v6 := strings.Contains(a, ":")
 	if rng.Bool(0.35) {
-		if v6 && rng.Bool(0.25) {
-			return c05Expand6(a)
-		}
 		return a
 	}
 	var l int
@@ -920,8 +1029,15 @@ func c05Gen(rng *sim.Rand, tier string) interface{} {
 			if unexplored && (op.Method == "POST" || op.Method == "PUT" || op.Method == "post") && rng.Bool(0.4) {
 				op.Body = rng.Pick(1, 5, 9, 40, 100)
 			}
-			if op.Via != "remote" && op.Via != "xrijunk" && strings.Contains(op.IP, ":") && rng.Bool(0.15) {
-				op.Form = "exp"
+			// the same address in another spelling (header-borne clients only;
+			// RemoteAddr is always printed canonically)
+			if op.Via != "remote" && op.Via != "xrijunk" {
+				switch v6 := strings.Contains(op.IP, ":"); {
+				case v6 && rng.Bool(0.2):
+					op.Form = rng.PickStr("exp", "exp", "lz", "upper", "part")
+				case !v6 && rng.Bool(0.15):
+					op.Form = rng.PickStr("map4", "map4", "map4hex", "map4long")
+				}
 			}
 			cl.Ops = append(cl.Ops, op)
 		}
@@ -1170,8 +1286,28 @@ type c05Mux struct {
 func c05NewMux(r *sim.Run, ss *supervisor.Spec, yield bool) *c05Mux {
 	mp := &c05Mapper{r: r, yield: yield, calls: map[string][]c05Call{}}
 	m := newMux(httpstat.New(), httpstat.NewTopN(10), mp)
-	m.reload(ss, mp)
+	if !c05Reload(r, m, ss, mp) {
+		return nil
+	}
 	return &c05Mux{m: m, ss: ss, mapper: mp}
+}
+
+// c05Reload: mux.reload with a spec that passed validation must not panic
+// (the lists would never come into force).
+func c05Reload(r *sim.Run, m *mux, ss *supervisor.Spec, mp *c05Mapper) (ok bool) {
+	defer func() {
+		if p := recover(); p != nil {
+			ok = false
+			msg := fmt.Sprintf("mux.reload panicked on a spec that passed validation: %v\n%s\nspec:\n%s", p, debug.Stack(), ss.YAMLConfig())
+			if c05Mask["C05.valid-list-entry-panics-on-load"] {
+				r.Probe("c05.masked.C05.valid-list-entry-panics-on-load")
+				return
+			}
+			r.Violate("C05.valid-list-entry-panics-on-load", "%s", msg)
+		}
+	}()
+	m.reload(ss, mp)
+	return true
 }
 
 // c05GenSUT is one generation of the HTTPServer spec: its own validated
@@ -1184,6 +1320,8 @@ type c05GenSUT struct {
 	ss    *supervisor.Spec
 	twinF *c05Mux
 }
+
+var errC05Panic = fmt.Errorf("reload panicked")
 
 // c05Build creates the mux under test (generation 0), the filter-less twin
 // and one c05GenSUT per generation in gens. supervisor.NewSpec is by far the
@@ -1202,11 +1340,26 @@ func c05Build(r *sim.Run, sc *c05Scenario, gens []int) (main, twinU *c05Mux, sut
 		}
 		spec := gs.ss.ObjectSpec().(*Spec)
 		if g == 0 {
-			main = c05NewMux(r, gs.ss, sc.HandlerYield)
+			if main = c05NewMux(r, gs.ss, sc.HandlerYield); main == nil {
+				return nil, nil, nil, errC05Panic
+			}
 		}
 		cs := spec.CacheSize
 		spec.CacheSize = 0
 		gs.twinF = c05NewMux(r, gs.ss, false)
+		if gs.twinF == nil {
+			spec.CacheSize = cs
+			if main != nil {
+				main.m.close()
+			}
+			for _, x := range sut {
+				x.twinF.m.close()
+			}
+			if twinU != nil {
+				twinU.m.close()
+			}
+			return nil, nil, nil, errC05Panic
+		}
 		if g == 0 {
 			type saved struct {
 				at **ipfilter.Spec
@@ -1291,8 +1444,8 @@ func c05Request(op c05Op, id string) *http.Request {
 	req.RequestURI = op.Path
 	hostport := func(ip string) string { return net.JoinHostPort(ip, "40000") }
 	const proxy = "192.0.2.1"
-	if op.Form == "exp" && op.Via != "remote" {
-		op.IP = c05Expand6(op.IP)
+	if op.Form != "" && op.Via != "remote" {
+		op.IP = c05Spell(op.IP, op.Form)
 	}
 	switch op.Via {
 	case "xri":
@@ -1482,7 +1635,12 @@ func c05ValidOp(op c05Op) bool {
 		return false
 	}
 	got, ok := c05ClientOf(req)
-	if !ok || op.Form != "" && op.Form != "exp" {
+	switch op.Form {
+	case "", "exp", "lz", "upper", "part", "map4", "map4hex", "map4long":
+	default:
+		return false
+	}
+	if !ok {
 		return false
 	}
 	g, w := net.ParseIP(got), net.ParseIP(op.IP)
@@ -1536,6 +1694,9 @@ func c05Exec(r *sim.Run, sci interface{}) {
 	}
 	sort.Ints(gens)
 	main, twinU, sut, err := c05Build(r, sc, gens)
+	if err == errC05Panic {
+		return
+	}
 	if err != nil {
 		r.Probe("c05.spec_rejected")
 		r.Eventf("spec rejected: %v", err)
@@ -1667,8 +1828,26 @@ func c05Exec(r *sim.Run, sci interface{}) {
 		if edge {
 			r.Probe("c05.client_one_bit_outside_an_applying_entry")
 		}
-		if op.Form == "exp" {
-			r.Probe("c05.client_ipv6_expanded_spelling")
+		if spelled := c05Spell(op.IP, op.Form); op.Via != "remote" && spelled != op.IP {
+			switch {
+			case op.Form == "exp":
+				r.Probe("c05.client_ipv6_expanded_spelling")
+			case strings.HasPrefix(op.Form, "map4"):
+				r.Probe("c05.client_ipv4_mapped_spelling")
+				onlyV4 := true
+				for _, f := range fs {
+					if f != nil {
+						for _, e := range append(append([]string{}, f.Allow...), f.Block...) {
+							onlyV4 = onlyV4 && !strings.Contains(e, ":")
+						}
+					}
+				}
+				if onlyV4 {
+					r.Probe("c05.client_ipv4_mapped_spelling_all_applying_entries_dotted")
+				}
+			default:
+				r.Probe("c05.client_ipv6_spelling_" + op.Form)
+			}
 		}
 		switch {
 		case st.level != "":
@@ -1762,6 +1941,35 @@ func c05Exec(r *sim.Run, sci interface{}) {
 		return "", ""
 	}
 
+	// mappedHit: some list of generation view gv holds an entry written in
+	// IPv4-mapped form that contains the client's address.
+	mappedHit := func(gv *c05Scenario, op c05Op) string {
+		ip := net.ParseIP(op.IP)
+		hit := ""
+		look := func(f *c05Filter) {
+			if f == nil {
+				return
+			}
+			for _, e := range append(append([]string{}, f.Allow...), f.Block...) {
+				base := e
+				if i := strings.Index(e, "/"); i >= 0 {
+					base = e[:i]
+				}
+				if a := net.ParseIP(base); a != nil && a.To4() != nil && strings.Contains(base, ":") && c05Contains(e, ip) {
+					hit = e
+				}
+			}
+		}
+		look(gv.Server)
+		for _, ru := range gv.Rules {
+			look(ru.Filter)
+			for _, p := range ru.Paths {
+				look(p.Filter)
+			}
+		}
+		return hit
+	}
+
 	histStr := func() string {
 		return fmt.Sprintf("generations installed so far %v (reloads started %d, returned %d)", hist, started, done)
 	}
@@ -1782,7 +1990,9 @@ func c05Exec(r *sim.Run, sci interface{}) {
 		started++
 		busy, ev0 := inflight > 0, reqEvents
 		r.Eventf("%s reload gen %d -> gen %d begins (requests in flight: %d)", tag, from.g, op.Gen, inflight)
-		main.m.reload(gs.ss, main.mapper)
+		if !c05Reload(r, main.m, gs.ss, main.mapper) {
+			return
+		}
 		done++
 		reloading = false
 		r.Eventf("%s reload gen %d -> gen %d returned", tag, from.g, op.Gen)
@@ -2061,11 +2271,15 @@ func c05Exec(r *sim.Run, sci interface{}) {
 				}
 			}
 		}
-		if okBy == 0 && op.Via == "xff2priv" {
+		if okBy == 0 && op.Via == "xff2priv" && mappedHit(acc[len(acc)-1].view, op) == "" {
 			violate("C05.client-in-later-x-forwarded-for-line-ignored", "X-Forwarded-For arrives as two header lines (%q / %q); as one list its first public hop %s is the client, the server judged another address (ordinary class %s)\n%s", op.Chain, op.IP, op.IP, firstClass, firstMsg)
 			return
 		}
 		if okBy == 0 {
+			if e := mappedHit(acc[len(acc)-1].view, op); e != "" {
+				violate("C05.ipv4-mapped-list-entry-ignored", "list entry %q is the IPv4 address/block in IPv4-mapped spelling and contains client %s, but the server decides as if the entry were not there (ordinary class %s)\n%s", e, op.IP, firstClass, firstMsg)
+				return
+			}
 			// accepted by no generation that may judge it. Would lists that a
 			// reload had already replaced when the request started explain it?
 			for k := lo - 1; k >= 0; k-- {
@@ -2096,7 +2310,9 @@ func c05Exec(r *sim.Run, sci interface{}) {
 		// the cache-less mux of every generation involved, as a pure function
 		for i, gs := range acc {
 			if cl, msg := verdict("nocache", tag, gs, op, f0s[i], tw, f0s[i], false); cl != "" {
-				if op.Via == "xff2priv" {
+				if e := mappedHit(gs.view, op); e != "" {
+					cl, msg = "C05.ipv4-mapped-list-entry-ignored", fmt.Sprintf("list entry %q is the IPv4 address/block in IPv4-mapped spelling and contains client %s, but the server decides as if the entry were not there (ordinary class %s)\n%s", e, op.IP, cl, msg)
+				} else if op.Via == "xff2priv" {
 					cl, msg = "C05.client-in-later-x-forwarded-for-line-ignored", "X-Forwarded-For arrives as two header lines ("+op.Chain+" / "+op.IP+"); as one list its first public hop "+op.IP+" is the client, the server judged another address (ordinary class "+cl+")\n"+msg
 				}
 				violate(cl, "%s", msg)
@@ -2176,6 +2392,17 @@ func c05Exec(r *sim.Run, sci interface{}) {
 	}
 	sort.Strings(ent)
 	for _, e := range ent {
+		base := e
+		if i := strings.Index(e, "/"); i >= 0 {
+			base = e[:i]
+		}
+		if a := net.ParseIP(base); a != nil && a.String() != base {
+			if a.To4() != nil {
+				r.Probe("c05.entry_ipv4_mapped_spelling")
+			} else {
+				r.Probe("c05.entry_ipv6_not_in_canonical_spelling")
+			}
+		}
 		if i := strings.Index(e, "/"); i >= 0 {
 			if _, n, err := net.ParseCIDR(e); err == nil {
 				if ones, bits := n.Mask.Size(); (bits == 32 && !ongrid(ones, c05V4Len)) || (bits == 128 && !ongrid(ones, c05V6Len)) {
@@ -2183,6 +2410,9 @@ func c05Exec(r *sim.Run, sci interface{}) {
 				}
 				if n.String() != e {
 					r.Probe("c05.cidr_with_host_bits")
+				}
+				if strings.HasPrefix(e, "::ffff:") {
+					r.Probe("c05.entry_ipv4_mapped_cidr")
 				}
 				if strings.HasSuffix(e, "/0") {
 					r.Probe("c05.cidr_prefix_0")
@@ -2213,6 +2443,7 @@ func TestVerifC05(t *testing.T) {
 			"an answer explained only by lists that a returned reload had already replaced is classed C05.reload.*",
 			"route existence is taken from the twin's answer to the same request without body; X-Forwarded-For header lines are read as one list (RFC 7230 3.2.2), members that are not addresses are skipped; a client named only by a non-address may be refused or answered as unfiltered, consistently with the cache-less mux",
 			"a rule whose host equals the request's up to letter case, or whose hostRegexp finds it, counts as maybe applying (lenient)",
+			"the decision table is applied to the parsed ADDRESS: header-borne clients and list entries are also written in other spellings of the same address (IPv4-mapped ::ffff:a.b.c.d / ::ffff:hhhh:hhhh, IPv6 upper case, four-digit groups, other :: compression); membership by net.IPNet.Contains. IPv4-mapped list entries being ignored / panicking on load was a genuine defect, repaired by 7d1a200",
 		},
 	})
 }
